@@ -607,7 +607,11 @@ def replay(ck, path):
 META = {
     "text": "Machine-checked theorems (coq/Props/C09.v) about a Gallina model of ast.Escape / ast.Unescape, the lexer rules and the term "
             "parser of mangle with the constructor cases of functional.EvalExpr: unescaping an escaped string or byte string returns it, a "
-            "printed literal is exactly one token, and parsing the printed text of a constant returns that constant. The model is tied to "
+            "printed literal is exactly one token, and - for every kind of constant at any nesting depth (names, strings, byte strings, every "
+            "int64, finite floats, times, durations, pairs, lists, maps, structs as ast.Map / ast.Struct order them) and for atoms over such "
+            "constants and variables - parsing the printed text, followed by nothing or by a character outside names and numbers, with fuel "
+            "2 * length + 2, returns an expression that evaluates to that constant (parse_print_const, parse_print_atom; strconv / time enter as "
+            "oracles with their round-trip laws as hypotheses). The model is tied to "
             "the code on every run: printer, lexer + parser (also on mutated near-miss texts: accept / reject and tree), escape and unescape "
             "are compared with Go inside Coq, and the round trip parse(String(x)) = x itself is executed in Go on generated constants, atoms, "
             "type expressions and clauses with negation, comparisons, transforms, temporal annotations and operators.",
